@@ -679,6 +679,40 @@ def rule_linecol(ctx, rep, rid="R-C05-linecol"):
         else:
             r.finding(inst + "|col-carried-over", loc_str(b.f, s[3]), "`line` advances but `col` keeps (or only adds to) its old value on some path to the next token: "
                       "tokens after a line break inside this token get a column shifted by the previous line's column")
+    # clause 2: a reset to column 0 belongs to one line-break character/token: it sits on the Newline arm of the token match or
+    # on the `== '\n'` branch of a per-character test (a reset decided by a count of lines forgets the rest of the token)
+    from vlib.mir import switch_info
+    k = 0
+    for i, j, s in sorted(b.all_stmts(), key=lambda t: (t[2][3][0], t[2][3][1])):
+        if s[0] != "=" or s[1] != [COL, []] or s[2][0] != "use" or s[2][1][0] != "c":
+            continue
+        if not any(h in dom.get(i, set()) for h in heads):
+            continue            # the initialisation before the loop
+        k += 1
+        inst = "lexer::tokenize|col reset #%d" % k
+        tied = False
+        for d_ in dom.get(i, set()):
+            si = switch_info(b, d_)
+            if not si:
+                continue
+            for succ, labs in si["edges"].items():
+                if not (succ == i or succ in dom.get(i, set())):
+                    continue
+                if si["kind"] == "disc" and "Newline" in [str(x) for x in labs]:
+                    tied = True
+                if si["kind"] == "int" and [str(x) for x in labs] == ["10"]:
+                    sp = si["subject"][1] if si["subject"][0] == "place" else None
+                    if sp is not None and (b.local_ty(sp[0]) == "char" or b.local_ty(op_place(b.term(d_)[1])[0]) == "char"):
+                        tied = True         # `match c { '\n' => .. }`
+                if si["kind"] == "bool" and si["subject"][0] == "bin" and si["subject"][1] == "Eq" and labs == [True]:
+                    for o in si["subject"][2:4]:
+                        if o[0] == "c" and o[1] == "char" and len(o) > 3 and o[3].get("int") == "10":
+                            tied = True
+        if tied:
+            r.ok(inst, loc_str(b.f, s[3]), "on a line-break branch")
+        else:
+            r.finding(inst + "|not-on-a-line-break", loc_str(b.f, s[3]), "`col` is reset to a constant on a path that is not the Newline token arm nor the `== '\\n'` "
+                      "branch of a character test: what follows the last line break inside the token is not counted")
     r.note("%d line advances, %d absolute / %d relative col writes" % (len(line_w), len(col_abs), len(col_rel)))
 
 
